@@ -27,6 +27,7 @@ SITE_KIND = {
     "clt_pong": "pongAll", "clt_pop": "L", "clt_call": "cb", "sel_select": "select", "sel_pong": "pongAll",
     "sel_empty": "Queue.empty", "sel_get": "Queue.get",
 }
+HUBRACE_KEY = "hubrace:a task parked in the threaded hub is queued twice (hub thread's _return vs schedule())"
 TIMEOUT_LIMIT = 8
 MAX_STEPS = 6000
 
@@ -46,7 +47,7 @@ class C07(Check):
     lean_targets = ["drv_c07"]
     driver = "drv_c07"
     theorems = ["Pox.C07.sites_agree", "Pox.C07.sites_anchored", "Pox.C07.calllater_once", "Pox.C07.calllater_order",
-                "Pox.C07.sync_excludes", "Pox.C07.sync_mutual", "Pox.C07.schedule_atmost1", "Pox.C07.schedule_self_twice", "Pox.C07.schedule_wake_kept",
+                "Pox.C07.sync_excludes", "Pox.C07.sync_mutual", "Pox.C07.schedule_atmost1", "Pox.C07.schedule_self_twice", "Pox.C07.schedule_hub_race_defect", "Pox.C07.schedule_wake_kept",
                 "Pox.C07.wake_noticed", "Pox.C07.incoming_noticed", "Pox.C07.hub_mode", "Pox.C07.lock_excl", "Pox.C07.lock_excl_multi", "Pox.C07.lock_handoff",
                 "Pox.C07.lock_excl_needs_discipline"]
     anchors = []             # computed in setup(): the bodies of the functions listed in harness/translate/sites.py
@@ -150,6 +151,10 @@ class C07(Check):
                                   "sched": {"type": "pct", "seed": seed, "d": 2, "k": 150}})
                 cases.append({"kind": "threads", "threaded": threaded, "users": b["users"], "progs": b["progs"],
                               "sched": {"type": "preempt", "points": []}})
+        if common.Findings().match(self.id, HUBRACE_KEY):
+            # the reproduction of schedule_hub_race_defect on the real classes; exercised (and reported as KNOWN-FINDING) once the
+            # finding is listed in known_findings.json — until then it is available through `--replay corpus/C07/hubrace.json`
+            cases.append({"kind": "hubrace", "seed": 0})
         cases += self.lock_corpus()
         cases += [{"kind": "pinger", "ops": ops} for ops in ([0, 1], [0, 0, 0, 1, 0, 1], [0] * 5 + [1, 0, 1, 0, 0, 1])]
         return cases
@@ -626,6 +631,60 @@ class C07(Check):
             hub._pinger = realp
             recoco.defaultScheduler = saved_default
 
+    # ------------------------------------------------------------------ implementation: hub return vs schedule()
+    def run_hubrace(self, case):
+        """A task parked in the THREADED select hub (`yield Select([p2])`); thread A makes p2 readable (the hub thread will
+        `_return` the task: `fast_schedule` on the hub thread), thread B calls `scheduler.schedule(task)` (a ScheduleTask does
+        the membership test + `fast_schedule` on the scheduler thread).  Random schedule from `seed`.  Outside the Lean model's
+        reachable states (user tasks do not park in the hub there); witness: Pox.C07.schedule_hub_race_defect."""
+        import random
+        recoco, util = self.recoco, self.util
+        rng = random.Random(case["seed"])
+        ctl = ft.Controller(ft.RandomChooser(rng), trace_funcs=self.trace_funcs, yield_lines=self.yield_lines,
+                            max_steps=MAX_STEPS, frame_files=(self.rfile,))
+        def namer(th):
+            n = getattr(th._target, "__name__", "")
+            return "H" if n == "_threadProc" else "S" if n == "run" else None
+        prim = ft.make_primitives(ctl, namer)
+        saved = (recoco.threading, recoco.Thread, recoco.Queue, recoco.select, util.makePinger, recoco.defaultScheduler)
+        sys_trace_saved = sys.gettrace(); sys.settrace(None)
+        recoco.threading, recoco.Thread, recoco.Queue, recoco.select = prim.threading, prim.Thread, prim.Queue, prim.select_module
+        util.makePinger = lambda: prim.Pinger()
+        import io, contextlib
+        sink = io.StringIO()
+        redir = contextlib.ExitStack()
+        try:
+            sched = recoco.Scheduler(isDefaultScheduler=True, startInThread=True, daemon=True, threaded_selecthub=True)
+            p2 = prim.Pinger()
+            runs, dup = [], []
+            class T(recoco.BaseTask):
+                def run(self):
+                    while True:
+                        yield recoco.Select([p2], None, None)
+                        runs.append(1)
+                        if p2.count: p2.pongAll()
+            t = T(); t.start(fast=True)
+            def on_step(c):
+                r = list(sched._ready)
+                if len(set(map(id, r))) != len(r): dup.append(c.steps)
+            ctl.on_step = on_step
+            parked = lambda: t in sched._selectHub._tasks
+            def A():
+                ctl.yield_point(("begin", 0), blocked=parked); p2.ping()
+            def B():
+                ctl.yield_point(("begin", 1), blocked=parked); sched.schedule(t)
+            ctl.spawn("F0", A); ctl.spawn("F1", B)
+            redir.enter_context(contextlib.redirect_stdout(sink)); redir.enter_context(contextlib.redirect_stderr(sink))
+            status = ctl.run(lambda c, en: c.chooser.pick(c, en) if en else ("stop", "quiescent"))
+            rel = [[n] + [str(x) for x in k] for n, k, _ in ctl.trace
+                   if k[0] == "L" and k[1] in ("ScheduleTask.run", "Scheduler.fast_schedule")]
+            return {"status": status, "dup_ready_at_steps": dup[:3], "task_slices": len(runs), "steps": ctl.steps,
+                    "ready_sites": rel[-14:], "thread_errors": {x.name: x.error for x in ctl.threads if x.error}}
+        finally:
+            ctl.teardown(); redir.close()
+            (recoco.threading, recoco.Thread, recoco.Queue, recoco.select, util.makePinger, recoco.defaultScheduler) = saved
+            sys.settrace(sys_trace_saved)
+
     # ------------------------------------------------------------------ implementation: pinger
     def run_pinger(self, case):
         p = self.util.make_pinger()
@@ -661,6 +720,7 @@ class C07(Check):
             return obs
         if k == "lock": return self.run_lock(case)
         if k == "pinger": return self.run_pinger(case)
+        if k == "hubrace": return self.run_hubrace(case)
         raise ValueError(k)
 
     def confirm_deadlock(self, case, obs):
@@ -748,6 +808,9 @@ class C07(Check):
         k = case["kind"]
         if k == "threads": return self.oracle_threads(case, obs)
         if k == "lock": return self.oracle_lock(case, obs)
+        if k == "hubrace":
+            if obs["dup_ready_at_steps"]: return HUBRACE_KEY.split(":", 1)[1]
+            if obs["thread_errors"]: return "exception left a thread"
         return None
 
     def oracle_threads(self, case, obs):
@@ -812,6 +875,7 @@ class C07(Check):
         return None
 
     def finding_key(self, case, obs, failure):
+        if case["kind"] == "hubrace" and obs.get("dup_ready_at_steps"): return HUBRACE_KEY
         return "%s:%s" % (case["kind"], failure.split(":")[0][:70])
 
     def nontrivial(self, case, obs):
